@@ -54,6 +54,10 @@ func (s *Struct) Assign(gen Generator, ctx *MethodContext, assignTo *AssignTo, s
 		if fieldMapping.Ignore {
 			continue
 		}
+		if targetField.Name() == "_" {
+			// blank fields cannot be assigned
+			continue
+		}
 		// an explicit goverter:map for the field is not dropped by ignoreUnexported
 		if !targetField.Exported() && ctx.Conf.IgnoreUnexported && fieldMapping.Source == "" && fieldMapping.Function == nil {
 			continue
